@@ -91,6 +91,12 @@ instance (fs : List Field) (vs : List Bytes) : Decidable (Fits fs vs) := Fits.de
 def encChecked (fs : List Field) (vs : List Bytes) : Option Bytes :=
   if Fits fs vs then some (enc fs vs) else none
 
+instance instDecidableEqExcept {ε α : Type} [DecidableEq ε] [DecidableEq α] : DecidableEq (Except ε α)
+  | .ok a, .ok b => if h : a = b then isTrue (by rw [h]) else isFalse (by intro hc; cases hc; exact h rfl)
+  | .error a, .error b => if h : a = b then isTrue (by rw [h]) else isFalse (by intro hc; cases hc; exact h rfl)
+  | .ok _, .error _ => isFalse (by intro h; cases h)
+  | .error _, .ok _ => isFalse (by intro h; cases h)
+
 /-! ## Go integers -/
 
 def maxInt64 : Nat := 9223372036854775807
@@ -297,11 +303,11 @@ def WF (e : LogEntry) : Prop :=
 
 instance (e : LogEntry) : Decidable (WF e) := by unfold WF; exact inferInstance
 
-/-- exactly when `AppendTileLeaf` does not panic (no constraint on the timestamp sign or on ignored fields) -/
+/-- exactly when `AppendTileLeaf` does not panic (no constraint on the timestamp or on ignored fields) -/
 def Encodable (e : LogEntry) : Prop :=
-  e.certificate.length < 16777216 ∧ e.issuerKeyHash.length = 32 ∧
+  e.certificate.length < 16777216 ∧
   e.chainFingerprints.flatten.length < 65536 ∧
-  (e.isPrecert = true → e.preCertificate.length < 16777216) ∧
+  (e.isPrecert = true → e.issuerKeyHash.length = 32 ∧ e.preCertificate.length < 16777216) ∧
   (e.archival = false → 0 ≤ e.leafIndex ∧ e.leafIndex < 1099511627776)
 
 instance (e : LogEntry) : Decidable (Encodable e) := by unfold Encodable; exact inferInstance
@@ -358,6 +364,12 @@ deriving DecidableEq, Repr
 
 def NoteSig.encode (x : NoteSig) : Bytes :=
   enc noteSigSchema [toBE 8 x.timestamp, toBE 1 x.hashAlg, toBE 1 x.sigAlg, x.signature]
+
+/-- the values the wire format can carry -/
+def NoteSig.WF (x : NoteSig) : Prop :=
+  x.timestamp < 18446744073709551616 ∧ x.hashAlg < 256 ∧ x.sigAlg < 256 ∧ x.signature.length < 65536
+
+instance (x : NoteSig) : Decidable x.WF := by unfold NoteSig.WF; exact inferInstance
 
 /-- the reads of the verify closure, without the `hashAlg != 4` test (kept separate: it is a guard) -/
 def parseNoteSig (sig : Bytes) : Option NoteSig :=
